@@ -50,6 +50,7 @@ PathLaws(sep) ==
             /\ CP(<<j1, t>>, one) = onef
             /\ \A j2 \in JsonLike :
                  /\ InDomain(<<j1, t, j2>>, sep, FALSE, one)
+                 /\ Walk(<<j1, t, j2>>, sep, FALSE, one) = <<TRUE, one>>
                  /\ CP(<<j1, t, j2>>, one) = one
                  /\ CP(<<j1, j2, t>>, one) = onef
                  /\ CP(<<t, j1, j2>>, onef) = one
